@@ -71,28 +71,35 @@ func (w *c02World) goValid(vi int, q *c02QC) bool {
 }
 
 func (w *c02World) evalAgg(st *c02Streams, a *c02Agg, mut string, honest bool) {
-	// ground truth: who genuinely signed its own timeout message for the stated view and reported QC
-	signers := map[uint64]bool{}
-	for _, c := range a.sig.contribs {
-		if c.msg.kind != 'T' || c.msg.id != c.signer || c.msg.view != a.view || !w.isMember(c.signer) {
-			continue
-		}
-		if q, ok := a.qcs[c.signer]; ok && c.msg.dig == int64(q.dig) {
-			signers[c.signer] = true
-		}
-	}
-	unattested := false
-	for k := range a.qcs {
-		if !signers[k] {
-			unattested = true
-		}
-	}
+	honest = w.honestHere(mut, honest)
 	for vi := range w.vers {
 		for _, cache := range []bool{false, true} {
 			if !w.wantCall(mut, honest, vi, cache) || (w.repeat && (vi > 0 || cache)) {
 				continue
 			}
 			au := w.auth(vi, cache, false)
+			// ground truth: who genuinely signed its own timeout message for the stated view and reported QC
+			signers := map[uint64]bool{}
+			attributed := a.sig.valid
+			if w.scheme == crypto.NameBLS12 {
+				// BLS BatchVerify takes the signers from the QC map (the batch), not from the bitfield,
+				// which only has to have the right size: attribution is by the map key checked below
+				attributed = a.sig.contribs
+			}
+			for _, c := range attributed {
+				if c.msg.kind != 'T' || c.msg.id != c.signer || c.msg.view != a.view || !w.isMember(c.signer) {
+					continue
+				}
+				if q, ok := a.qcs[c.signer]; ok && c.msg.dig == int64(q.dig) {
+					signers[c.signer] = true
+				}
+			}
+			unattested := false
+			for k := range a.qcs {
+				if !signers[k] {
+					unattested = true
+				}
+			}
 			var high hotstuff.QuorumCert
 			o := c02Run(func() error {
 				h, err := au.VerifyAggregateQC(a.obj)
@@ -162,7 +169,11 @@ func (w *c02World) evalAgg(st *c02Streams, a *c02Agg, mut string, honest bool) {
 			if honest && w.n >= 2 {
 				w.oracle(o == "ok", "aggqc:honest-rejected", "an honestly assembled AggregateQC was not accepted: "+o, meta)
 			}
-			w.v.Case(st.agg, fmt.Sprintf("(%s,%s,%s,%s,(%d,%d))", w.cfgTerm(false), w.storeTm, a.term, c02Obs(o), hd, hv), meta)
+			if len(w.badPop) > 0 {
+				w.v.Case(st.aggp, fmt.Sprintf("(%s,%s,%s,%s,%s,(%d,%d))", w.cfgTerm(false), w.vctxTerm(), w.storeTm, a.term, c02Obs(o), hd, hv), meta)
+			} else {
+				w.v.Case(st.agg, fmt.Sprintf("(%s,%s,%s,%s,(%d,%d))", w.cfgTerm(false), w.storeTm, a.term, c02Obs(o), hd, hv), meta)
+			}
 
 			// BatchVerify directly on the crypto base with the same batch (cache off only)
 			if !cache && !w.repeat && w.grow == nil && a.sig.obj != nil {
@@ -178,26 +189,35 @@ func (w *c02World) evalAgg(st *c02Streams, a *c02Agg, mut string, honest bool) {
 				w.v.Seen(fmt.Sprintf("sb|%s|%d|%s|%d", w.scheme, w.n, a.term, vi), len(batch) > 0, nil)
 				w.v.Count("batchverify:" + ob)
 				if ob != "panic" {
-					w.v.Case(st.sb, fmt.Sprintf("(%s,%s,%s,[%s],%s)", w.sch, w.membersTerm(), c02Raw(a.sig.term), strings.Join(bt, ";"), gBool(ob == "ok")),
+					w.v.Case(st.sb, fmt.Sprintf("(%s,%s,%s,[%s],%s)", w.sch, w.usableTerm(), c02Raw(a.sig.term), strings.Join(bt, ";"), gBool(ob == "ok")),
 						w.meta("batchverify", mut, a.term, vi, false, ob))
 				}
 			}
 
 			// VerifyAnyQC on proposals carrying this AggregateQC (aggregate QCs enabled / disabled)
-			if vi == 0 && !cache && !w.repeat && w.grow == nil {
+			if vi == 0 && !w.repeat && w.grow == nil {
 				var bqcs []*c02QC
 				if hq != nil {
 					bqcs = append(bqcs, hq)
+					// block QCs that agree with the high QC under QuorumCert.Equals (same view, hash and
+					// signature bytes) but name other signers: they must not ride on the aggregate
+					for variant := 0; variant < 2; variant++ {
+						if tw := w.twinOf(hq, variant); tw != nil {
+							bqcs = append(bqcs, tw)
+						}
+					}
 				}
-				for _, k := range c02SortedKeys(a.qcs) {
-					if hq == nil || a.qcs[k].dig != hq.dig {
-						bqcs = append(bqcs, a.qcs[k])
-						break
+				if !cache {
+					for _, k := range c02SortedKeys(a.qcs) {
+						if hq == nil || a.qcs[k].dig != hq.dig {
+							bqcs = append(bqcs, a.qcs[k])
+							break
+						}
 					}
 				}
 				for _, bq := range bqcs {
 					for bi, aggOn := range []bool{true, false} {
-						if !aggOn && bi > 0 && bq != bqcs[0] {
+						if !aggOn && (cache || (bi > 0 && bq != bqcs[0])) {
 							continue
 						}
 						blk := hotstuff.NewBlock(hotstuff.GetGenesis().Hash(), bq.obj, &clientpb.Batch{}, hotstuff.View(a.view+1), 1)
@@ -212,7 +232,7 @@ func (w *c02World) evalAgg(st *c02Streams, a *c02Agg, mut string, honest bool) {
 						// soundness: an accepted proposal's block QC is a valid QC
 						t, cl := w.qcTruth(bq)
 						w.oracle(!(oa == "ok" && !t), "anyqc:accepted:"+cl, "VerifyAnyQC accepted a proposal whose block QC is not valid: "+cl, m2)
-						w.v.Case(st.any, fmt.Sprintf("(%s,%s,%s,(Some %s),%s)", w.cfgTerm(aggOn), w.storeTm, bq.term, a.term, c02Obs(oa)), m2)
+						w.v.Case(st.any, fmt.Sprintf("(%s,%s,%s,%s,%s,(Some %s),%s)", w.cfgTerm(aggOn), w.vctxTerm(), w.storeTm, w.sdTerm(bq, a), bq.term, a.term, c02Obs(oa)), m2)
 					}
 				}
 			}
@@ -492,5 +512,143 @@ func c02GrowthStream(v *verifOut, st *c02Streams, scheme string, ids []uint64) {
 		}
 		w.n, w.q = upto, hotstuff.QuorumSize(upto)
 		suite(fmt.Sprintf("n=%d", upto))
+	}
+}
+
+// sigd names the signature bytes of a QC (what QuorumCert.Equals compares); 0 = no signature
+func (w *c02World) sigd(q *c02QC) uint64 {
+	if q.obj.Signature() == nil {
+		return 0
+	}
+	k := string(q.obj.Signature().ToBytes())
+	if d, ok := w.sigds[k]; ok {
+		return d
+	}
+	d := uint64(len(w.sigds) + 1)
+	w.sigds[k] = d
+	return d
+}
+
+func (w *c02World) sdTerm(bq *c02QC, a *c02Agg) string {
+	seen := map[uint64]bool{}
+	var ts []string
+	add := func(q *c02QC) {
+		if !seen[q.dig] {
+			seen[q.dig] = true
+			ts = append(ts, fmt.Sprintf("(%d,%d)", q.dig, w.sigd(q)))
+		}
+	}
+	add(bq)
+	for _, k := range c02SortedKeys(a.qcs) {
+		add(a.qcs[k])
+	}
+	return "[" + strings.Join(ts, ";") + "]"
+}
+
+// twinOf: a QC with the same view, hash and signature BYTES as q whose signatures are attributed to other
+// replicas (variant 0: every label moved to the next signer's / all bits shifted; variant 1: one label
+// replaced by an id outside the configuration).  nil when q carries no signature.
+func (w *c02World) twinOf(q *c02QC, variant int) *c02QC {
+	outsider := hotstuff.ID(w.id(uint64(w.n + 1)))
+	relabel := func(i, k int, cur func(int) hotstuff.ID) hotstuff.ID {
+		if variant == 1 {
+			if i == 0 {
+				return outsider
+			}
+			return cur(i)
+		}
+		if k == 1 {
+			return outsider
+		}
+		return cur((i + 1) % k)
+	}
+	var obj hotstuff.QuorumSignature
+	switch s := q.sig.obj.(type) {
+	case crypto.Multi[*crypto.ECDSASignature]:
+		if len(s) == 0 {
+			return nil
+		}
+		ss := make([]*crypto.ECDSASignature, len(s))
+		for i, e := range s {
+			ss[i] = crypto.RestoreECDSASignature(e.ToBytes(), relabel(i, len(s), func(j int) hotstuff.ID { return s[j].Signer() }))
+		}
+		obj = crypto.NewMulti(ss...)
+	case crypto.Multi[*crypto.EDDSASignature]:
+		if len(s) == 0 {
+			return nil
+		}
+		ss := make([]*crypto.EDDSASignature, len(s))
+		for i, e := range s {
+			ss[i] = crypto.RestoreEDDSASignature(e.ToBytes(), relabel(i, len(s), func(j int) hotstuff.ID { return s[j].Signer() }))
+		}
+		obj = crypto.NewMulti(ss...)
+	case *crypto.BLS12AggregateSignature:
+		if s == nil {
+			return nil
+		}
+		var ids []hotstuff.ID
+		s.Participants().ForEach(func(id hotstuff.ID) { ids = append(ids, id) })
+		if len(ids) == 0 {
+			return nil
+		}
+		var bf crypto.Bitfield
+		for i, id := range ids {
+			if i == 0 {
+				bf.Add(outsider) // the first participant is replaced (variant 0) ...
+				if variant == 1 {
+					bf.Add(id) // ... or an extra bit is set (variant 1)
+				}
+				continue
+			}
+			bf.Add(id)
+		}
+		r, err := crypto.RestoreBLS12AggregateSignature(s.ToBytes(), bf)
+		if err != nil {
+			panic(err)
+		}
+		obj = r
+	default:
+		return nil
+	}
+	desc := w.describe(obj, q.sig.contribs, strings.Contains(q.sig.term, "None"))
+	return w.wrapQC(hotstuff.NewQuorumCert(obj, q.obj.View(), q.obj.BlockHash()), desc)
+}
+
+// c02PopStream: certificates that do / do not rely on the member whose registered proof of possession
+// is bad, each verified three times in a row (the crypto bases and one Authority per verifier are
+// long-lived, fresh Authorities are used next to them).
+func c02PopStream(w *c02World, st *c02Streams) {
+	bad, kind := 0, ""
+	for b, k := range w.badPop {
+		bad, kind = b, k
+	}
+	var others []uint64
+	for k := 1; k <= w.n; k++ {
+		if k != bad {
+			others = append(others, uint64(k))
+		}
+	}
+	good := others[:w.q]
+	with := append(append([]uint64(nil), others[:w.q-1]...), uint64(bad))
+	mB1, mV := w.mBlock("B1"), w.mView(4)
+	gQC := w.mkQC(w.render(c02Spec{absent: true}), 0, "G")
+	qcOf := func(uint64) *c02QC { return gQC }
+	agg := func(ids []uint64) *c02Agg {
+		return w.mkAgg(c02QCMap(ids, qcOf), w.render(c02Spec{parts: w.aggParts(ids, 6, qcOf)}), 6)
+	}
+	for rep := 0; rep < 3; rep++ {
+		if kind == "rogue" {
+			w.evalQC(st, w.mkQC(w.forge(mB1), 1, "B1"), "pop:rogue-key-forgery", false)
+			w.evalTC(st, w.mkTC(w.forge(mV), 4), "pop:rogue-key-forgery", false)
+			w.evalTC(st, w.mkTC(w.forge(w.mView(uint64(9+rep))), uint64(9+rep)), "pop:rogue-key-forgery-fresh-message", false)
+		} else {
+			w.evalQC(st, w.mkQC(w.render(c02Spec{parts: w.genuine(with, mB1)}), 1, "B1"), "pop:relies-on-bad-member", false)
+			w.evalTC(st, w.mkTC(w.render(c02Spec{parts: w.genuine(with, mV)}), 4), "pop:relies-on-bad-member", false)
+			w.evalAgg(st, agg(with), "pop:relies-on-bad-member", false)
+			w.evalQC(st, w.mkQC(w.render(c02Spec{parts: w.genuine(c02Range(1, w.n), mB1)}), 1, "B1"), "pop:all-members-incl-bad", false)
+		}
+		w.evalQC(st, w.mkQC(w.render(c02Spec{parts: w.genuine(good, mB1)}), 1, "B1"), "pop:honest-without-bad-member", true)
+		w.evalTC(st, w.mkTC(w.render(c02Spec{parts: w.genuine(good, mV)}), 4), "pop:honest-without-bad-member", true)
+		w.evalAgg(st, agg(good), "pop:honest-without-bad-member", true)
 	}
 }
